@@ -170,6 +170,7 @@ def _closure_pass(facts, body, state, depth):
     tmp = Body(dict(state["j"], blocks=blocks, locals=state["locals"], promoted=state["promoted"], vars=state["vars"]), facts)
     eb = ExprBuilder(tmp, facts, inline=False)
     todo = []
+    devirt = []
     for bi, blk in enumerate(blocks):
         t = blk["term"]
         if t["k"] != "call" or blk["cleanup"]:
@@ -190,6 +191,12 @@ def _closure_pass(facts, body, state, depth):
             c = eb.operand(t["args"][0], (bi, len(blk["stmts"])))
             while isinstance(c, tuple) and c and c[0] in ("ref", "deref"):
                 c = c[1]
+            if isinstance(c, tuple) and c and c[0] == "fn":
+                # a named function handed over as the callable (`self.consume(cnt, T::advance)`): the call through FnOnce is a
+                # direct call of that function with the argument tuple spread
+                if _devirtualize_fn_item(blocks, bi):
+                    devirt.append(bi)
+                continue
             if not (isinstance(c, tuple) and c and c[0] == "closure" and c[1] is not None):
                 continue
             cdid = c[1]
@@ -217,7 +224,36 @@ def _closure_pass(facts, body, state, depth):
         elif nparams:
             continue
         new_blocks.extend(_splice(state, bi, cb, assigns, t["dest"], t.get("target"), t.get("unwind")))
-    return list(new_blocks)
+    return list(new_blocks) + devirt
+
+
+def _devirtualize_fn_item(blocks, bi):
+    """rewrite `<F as FnOnce>::call_once(f, (a, b))` in block bi, where f is (a copy of) a function item constant, to `f(a, b)`"""
+    t = blocks[bi]["term"]
+    a0, a1 = t["args"]
+    op = a0
+    for _ in range(8):
+        if op["k"] == "const":
+            break
+        if op["k"] not in ("move", "copy") or op["pl"]["p"]:
+            return False
+        l = op["pl"]["l"]
+        ds = [s for blk in blocks if not blk["cleanup"] for s in blk["stmts"] if s["k"] == "assign" and s["pl"]["l"] == l and not s["pl"]["p"]]
+        if len(ds) != 1 or ds[0]["rv"]["k"] != "use":
+            return False
+        op = ds[0]["rv"]["op"]
+    if op["k"] != "const" or "fn" not in op:
+        return False
+    if a1["k"] not in ("move", "copy") or a1["pl"]["p"]:
+        return False
+    tl = a1["pl"]["l"]
+    ds = [s for blk in blocks if not blk["cleanup"] for s in blk["stmts"] if s["k"] == "assign" and s["pl"]["l"] == tl and not s["pl"]["p"]]
+    if len(ds) != 1 or ds[0]["rv"]["k"] != "agg" or ds[0]["rv"].get("ak") != "tuple":
+        return False
+    n = len(ds[0]["rv"]["ops"])
+    t["func"] = copy.deepcopy(op)
+    t["args"] = [{"k": "move", "pl": {"l": tl, "p": [{"f": i, "ty": "?"}]}} for i in range(n)]
+    return True
 
 
 def fnpath(t):
@@ -281,10 +317,18 @@ def keep_pred(keep_names=(), keep_dids=(), atoms=True):
     k = (keep_names, keep_dids, atoms)
     if k not in _PREDS:
         at = rule_atoms() if atoms else frozenset()
+        def anchored(cb, names):
+            nm = cb.id.rsplit("::", 1)[-1]
+            # an anchor is a name *and* a shape: `rebuild_vec(ptr, len, cap, off)` is what the rules read; a method
+            # `self.rebuild_vec(off)` that a refactoring introduces is just another helper, to be looked into
+            return nm in names and ANCHOR_ARITY.get(nm, cb.arg_count) == cb.arg_count
         _PREDS[k] = lambda facts, caller, cb, fn: (cb.kind in ("fn", "assoc_fn") and len(cb.blocks) <= 120
-                                                   and cb.id.rsplit("::", 1)[-1] not in keep_names and cb.id.rsplit("::", 1)[-1] not in at
+                                                   and not anchored(cb, keep_names) and not anchored(cb, at)
                                                    and cb.did not in keep_dids)
     return _PREDS[k]
+
+
+ANCHOR_ARITY = {"rebuild_vec": 4}
 
 
 _PREDS = {}
